@@ -1,5 +1,6 @@
 import TF.Proofs.Codec
 import TF.Proofs.GenBridgeCodec
+import TF.Proofs.GenBridgeCodecGeneric
 /-!
 # C03 — BFieldCodec: round trip, unique encoding, static length, documented layout
 
@@ -275,5 +276,103 @@ theorem gen_leaf_layout_roundtrip_transfer (n : Nat) (r : List Nat) :
   · rw [(u128_encode_limbs n).1]; rfl
 example : Loops.codec_u64_decode (Loops.codec_u64_encode 18446744073709551615) = .ok 18446744073709551615 ∧
     (18446744073709551615 : Nat) < 2^64 := by decide +kernel
+
+end TF.C03
+
+/-! ## regenerated-from-source bridge: the generic list combinators (BT8)
+
+`bfield_codec_decode_list_with_statically_sized_items`, `…_with_dynamically_sized_items`, `bfield_codec_decode_list` and
+`bfield_codec_encode_list` are **regenerated from the source on every run** (`TF/Gen/CodecGeneric.lean`,
+`tools/rs2lean_codec.py`): the trait methods of the type parameter are parameter functions (`T_static_length : Option Nat`,
+`T_decode : List Nat → Res T_Error T`, `T_encode : T → List Nat`, `T_err_into`), a Rust function returning `Result` is a
+function into `Res` (`ok | err | panic`, panic points explicit), the `for` loops with `?` are folds that stop at the first
+`err` / `panic`.  The bridges hold for **every** item decoder / encoder (`Item T_decode toVal dec`: the item decoder on raw
+words is observed as the model's item decoder on canonical values), every count and every sequence of `u64` words
+(`Words r`); error kinds are not compared (`Obs`; the Rust code wraps the item's error).  Proofs:
+`TF/Proofs/GenBridgeCodecGeneric.lean`. -/
+namespace TF.C03
+open TF.Codec TF.Gen TF.GenBridge.Codec TF.GenBridge.CodecG TF.RustStd
+
+/-- regenerated static list decoder = `decodeList dec (some w)`: `checked_mul` overflow, both length comparisons,
+    `chunks_exact(0)` panicking for zero-width items (F10), the chunk loop with its early exit -/
+theorem gen_decode_list_static_eq_model {ε α : Type} (T_decode : List Nat → Res ε α) (into : ε → DynErr) (toVal : α → Val)
+    (dec : List Nat → Outcome Val) (h : Item T_decode toVal dec) (w n : Nat) (r : List Nat) (hw : Words r) :
+    obsR (List.map toVal) (Loops.codec_decode_list_static (some w) T_decode into n r)
+      = obsM (decodeList dec (some w) n (vals r)) :=
+  gen_decode_list_static T_decode into toVal dec h w n r hw
+
+/-- the regenerated code shows the known finding F10: a zero-width item type makes the static list decoder panic
+    (`chunks_exact(0)`) on the sequence it should accept, whatever the item decoder is -/
+theorem gen_zero_width_list_panics {ε α : Type} (T_decode : List Nat → Res ε α) (into : ε → DynErr) (n : Nat) :
+    Loops.codec_decode_list_static_ok (some 0) T_decode into n [] = false := by
+  simp [Loops.codec_decode_list_static_ok, Loops.codec_decode_list_static, Res.unwrapO, TF.RustStd.checked_mul, Res.need,
+    Res.noPanic]
+
+/-- regenerated dynamic list decoder = `decodeList dec none`: per-item length prefix, `sequence_index + item_length`
+    (overflow = panic), comparison with the remaining length, item slice, early exits, "nothing left" at the end -/
+theorem gen_decode_list_dynamic_eq_model {ε α : Type} (T_decode : List Nat → Res ε α) (into : ε → DynErr) (toVal : α → Val)
+    (dec : List Nat → Outcome Val) (h : Item T_decode toVal dec) (n : Nat) (r : List Nat) (hw : Words r) :
+    obsR (List.map toVal) (Loops.codec_decode_list_dynamic T_decode into n r) = obsM (decodeList dec none n (vals r)) :=
+  gen_decode_list_dynamic T_decode into toVal dec h n r hw
+
+/-- regenerated `bfield_codec_decode_list` = `decodeList` (dispatch on the item's static length) -/
+theorem gen_decode_list_eq_model {ε α : Type} (sl : Option Nat) (T_decode : List Nat → Res ε α) (into : ε → DynErr)
+    (toVal : α → Val) (dec : List Nat → Outcome Val) (h : Item T_decode toVal dec) (n : Nat) (r : List Nat) (hw : Words r) :
+    obsR (List.map toVal) (Loops.codec_decode_list sl T_decode into n r) = obsM (decodeList dec sl n (vals r)) :=
+  gen_decode_list sl T_decode into toVal dec h n r hw
+
+/-- regenerated `bfield_codec_encode_list` = `encodeItems`: items in order, prefixed iff dynamically sized -/
+theorem gen_encode_list_eq_model {α : Type} (sl : Option Nat) (enc : α → List Nat) (toVal : α → Val) (encM : Val → List Nat)
+    (he : ∀ x, vals (enc x) = encM (toVal x)) (xs : List α) (hl : ∀ x ∈ xs, (enc x).length < TF.BF.Pn) :
+    vals (Loops.codec_encode_list sl enc xs) = encodeItems encM sl.isNone (xs.map toVal) :=
+  gen_encode_list sl enc toVal encM he xs hl
+
+/-- the hypotheses are satisfiable: the identity "decoder" of one-word items is observed as the model's `bfe` decoder -/
+example : Item (fun r => match r with | [x] => (Res.ok x : Res String Nat) | [] => .err "e" | _ => .err "l")
+    (fun x => Val.num (bfe_value x)) (decode .bfe) := by
+  intro r _
+  match r with
+  | [] => rfl
+  | [x] => rfl
+  | _ :: _ :: _ => rfl
+
+/-- **composites** (regenerated `Vec<T>`, `[T; N]`, `Option<T>`, `Box<T>`, `PhantomData<T>` decoders): if the component codec
+    is the model's (`Item T_decode toVal (decode t)`, static length `staticLength t`), the composite is the model's
+    constructor case of `decode` -- so by induction every type built from bridged leaves with these constructors is
+    decoded by the current source exactly as the hand model says (value, rejection, panic) -/
+theorem gen_composite_codecs_eq_model {ε α : Type} (t : Ty) (n : Nat) (T_decode : List Nat → Res ε α) (into : ε → DynErr)
+    (toVal : α → Val) (h : Item T_decode toVal (decode t)) :
+    Item (Loops.codec_vec_decode (staticLength t) T_decode into) (fun l => Val.list (l.map toVal)) (decode (.vec t)) ∧
+    Item (Loops.codec_array_decode n (staticLength t) T_decode into) (fun l => Val.list (l.map toVal)) (decode (.array n t)) ∧
+    Item (Loops.codec_option_decode T_decode into) (fun o => Val.opt (Option.map toVal o)) (decode (.option t)) ∧
+    Item (Loops.codec_box_decode T_decode) toVal (decode (.box t)) ∧
+    Item Loops.codec_phantom_decode (fun _ => Val.unit) (decode .phantom) ∧
+    Loops.codec_vec_static_length = staticLength (.vec t) ∧ Loops.codec_option_static_length = staticLength (.option t) ∧
+    Loops.codec_box_static_length (staticLength t) = staticLength (.box t) ∧
+    Loops.codec_phantom_static_length = staticLength .phantom ∧
+    Loops.codec_array_static_length n (staticLength t) = staticLength (.array n t) :=
+  ⟨vec_item t T_decode into toVal h, array_item n t T_decode into toVal h, option_item t T_decode into toVal h,
+    box_item t T_decode toVal h, phantom_item, rfl, rfl, rfl, rfl, by
+      simp only [Loops.codec_array_static_length, staticLength]; cases staticLength t <;> rfl⟩
+example : Item Loops.codec_phantom_decode (fun _ => Val.unit) (decode .phantom) := phantom_item
+
+/-- **`Polynomial<T>`**: the regenerated decoder (length indicator against the sequence length, `Vec<T>::decode` of the rest,
+    rejection of a trailing zero coefficient through `T::is_zero`) is the model's `poly` case whenever the coefficient
+    codec and `is_zero` are the model's -/
+theorem gen_poly_codec_eq_model {ε α : Type} (t : Ty) (T_decode : List Nat → Res ε α) (into : ε → DynErr) (isz : α → Bool)
+    (toVal : α → Val) (h : Item T_decode toVal (decode t)) (hz : ∀ a, isz a = valIsZero (toVal a)) :
+    Item (Loops.codec_poly_decode (staticLength t) T_decode into isz) (fun l => Val.list (l.map toVal)) (decode (.poly t)) ∧
+    Loops.codec_poly_static_length = staticLength (.poly t) :=
+  ⟨poly_item t T_decode into isz toVal h hz, rfl⟩
+example : ∀ a : Nat, (fun x : Nat => x == 0) a = valIsZero (Val.num a) := fun _ => rfl
+
+/-- **transfer** of `encode_decode` / `decode_welltyped`-style facts to the regenerated combinators: whatever a regenerated
+    composite decoder (one that is observed as `decode ty`) accepts, re-encodes (model encoder) to the values of the
+    accepted words; in particular two accepted sequences with the same decoded value have the same values -/
+theorem gen_combinators_roundtrip_transfer {ε α : Type} (ty : Ty) (G : List Nat → Res ε α) (toVal : α → Val)
+    (h : Item G toVal (decode ty)) (r : List Nat) (hw : Words r) (a : α) (hg : G r = .ok a) :
+    encode ty (toVal a) = vals r :=
+  encode_decode ty (vals r) (toVal a) (item_ok h r hw a hg)
+example : Loops.codec_phantom_decode [] = .ok () := rfl
 
 end TF.C03
